@@ -232,7 +232,9 @@ func deviceAccessToken(w http.ResponseWriter, r *http.Request, exchanger Exchang
 	if err != nil {
 		return err
 	}
-	if clientAuthenticated != IsConfidentialType(client) {
+	// a client has to authenticate in the way it is registered: only clients
+	// registered without an authentication method may poll with just their client_id
+	if !clientAuthenticated && client.AuthMethod() != oidc.AuthMethodNone {
 		return oidc.ErrInvalidClient().WithParent(ErrNoClientCredentials).
 			WithDescription("confidential client requires authentication")
 	}
